@@ -682,6 +682,19 @@ func (mw *mcastWorld) exec(f []string) {
 		buf := mw.newBuf(atoi(f[2]))
 		s.cands = append(s.cands, buf)
 		all := len(f) > 3 && f[3] == "all"
+		// "atlimit": the read is issued while IO.Dispatched is at MaxCallbackDispatch, so the library must defer it to
+		// the poller instead of completing it inline; the harness then polls until it has completed, so that the trace
+		// (and the model) see the same completion as for an inline read — with the buffer designated for *this* read.
+		atLimit := f[len(f)-1] == "atlimit" && s.kind != "raw"
+		for _, other := range mw.socks {
+			// (polling for this read must not complete another socket's read, which the script completes at its own `poll`)
+			if other != s && other.pending && !other.closed && waitReady(other.ofd, unix.POLLIN, 0) != 0 {
+				atLimit = false
+			}
+		}
+		if atLimit {
+			mw.ioc.Dispatched = sonic.MaxCallbackDispatch
+		}
 		switch s.kind {
 		case "raw":
 			n, sa, err := syscall.Recvfrom(s.fd, buf.b, 0)
@@ -709,6 +722,12 @@ func (mw *mcastWorld) exec(f []string) {
 				s.pc.AsyncReadAllFrom(buf.b, cb)
 			} else {
 				s.pc.AsyncReadFrom(buf.b, cb)
+			}
+		}
+		if atLimit {
+			mw.ioc.Dispatched = 0
+			for round := 0; round < 16 && s.pending && !s.closed && waitReady(s.ofd, unix.POLLIN, 0) != 0; round++ {
+				_, _ = mw.ioc.PollOne()
 			}
 		}
 		if s.pending {
@@ -954,7 +973,7 @@ func mcastGenPC(r *rng, maxops int, w *bufio.Writer) {
 			if kinds[s] == "pc" && r.intn(4) == 0 {
 				all = " all"
 			}
-			fmt.Fprintf(w, "! read %d %d%s\n", s, mcastReadLen(r, last), all)
+			fmt.Fprintf(w, "! read %d %d%s%s\n", s, mcastReadLen(r, last), all, r.pick2("", "", "", " atlimit"))
 		case 9:
 			fmt.Fprintf(w, "! poll\n")
 		}
@@ -1107,7 +1126,7 @@ func mcastGenPeers(r *rng, maxops int, w *bufio.Writer) {
 			}
 		case 13, 14, 15, 16:
 			s := recv[r.intn(len(recv))]
-			fmt.Fprintf(w, "! read %d %d\n", s, mcastReadLen(r, lastLen))
+			fmt.Fprintf(w, "! read %d %d%s\n", s, mcastReadLen(r, lastLen), r.pick2("", "", "", " atlimit"))
 			if qn > 0 {
 				qn--
 			}
